@@ -129,13 +129,13 @@ def run(v, tier):
     v.cov['spec_theorem_cases'] = n
     g = funcs.Gen(pi2v.SEED, ids=(0, 1, 2))
     gn = funcs.Gen(pi2v.SEED + 5, ids=(0, 1), notation=True)
-    mterms = u['U1'] + rng.sample(u['U2S'], 400 if quick else 3115) + [g.term(4) for _ in range(300 if quick else 6000)]
+    mterms = u['U1'] + rng.sample(u['U2S'], 400 if quick else 3115) + [g.term(4) for _ in range(300 if quick else 1500)]
     nterms = [x['p'] for x in u['NU1']] + rng.sample([x['p'] for x in u['NU2S']], 200 if quick else 836) + \
-             [gn.term(3) for _ in range(300 if quick else 5000)]
+             [gn.term(3) for _ in range(300 if quick else 1200)]
     allc = []
     for impl, terms in (('rust', mterms), ('py', mterms + nterms)):
-        cs = subst_cases(impl, terms, rng, 2 if quick else 5) + inst_cases(impl, terms, rng, 3 if quick else 8) + \
-             compose_cases(impl, terms, rng, 1 if quick else 4)
+        cs = subst_cases(impl, terms, rng, 2 if quick else 4) + inst_cases(impl, terms, rng, 3 if quick else 5) + \
+             compose_cases(impl, terms, rng, 1 if quick else 2)
         v.sample({k: cs[11][k] for k in ('impl', 'fn', 'p', 'x', 'g', 'res')})
         allc += cs
     res, _ = funcs.run_blocks(v, 'C11', 'Trace_Subst', 'c11-trace', allc, ' Mode = "trace"', bs=300, needs_sem=True)
